@@ -1,6 +1,8 @@
 (** C16 - Exported position arithmetic matches the forest geometry.
     This file contains only the property theorems; proofs live in Proofs/UtilsGeom.v and Proofs/UtilsGeom2.v. *)
 From Utreexo Require Import Model.Utils Proofs.UtilsGeom.
+From Utreexo Require Import Model.Utils Spec.Geometry Proofs.ProofPosSpec.
+From Coq Require Import List Sorted.
 From Utreexo Require Import Proofs.UtilsGeom2.
 Open Scope N_scope.
 
@@ -184,3 +186,49 @@ Theorem C16_calc_prev_calc_next : forall h r o del rd q, h <= 63 -> r <= rd -> r
   calcPrevPosition q del h = gpos h r o.
 Proof. exact calcPrev_calcNext. Qed.
 Print Assumptions C16_calc_prev_calc_next.
+
+(** ** merged from C16b.v *)
+
+(** On ascending targets that the geometry accepts (distinct, non-nested, existing in the forest of [n]
+    leaves, coordinates of height [h], [tree_rows n <= h <= 63]) the mirror of [ProofPositions] returns
+    exactly the lists the geometry demands. *)
+Theorem C16_proof_positions : forall n h ts pp comp,
+  pp_expect n h ts = Some (pp, comp) -> StronglySorted N.lt ts ->
+  ProofPositions ts n h = (pp, comp).
+Proof. exact proof_positions_spec. Qed.
+Print Assumptions C16_proof_positions.
+
+(** weakly ascending suffices: accepted targets are distinct *)
+Theorem C16_proof_positions_le : forall n h ts pp comp,
+  pp_expect n h ts = Some (pp, comp) -> StronglySorted N.le ts ->
+  ProofPositions ts n h = (pp, comp).
+Proof. exact proof_positions_spec_le. Qed.
+Print Assumptions C16_proof_positions_le.
+
+Theorem C16_pp_expect_distinct : forall n h ts pp comp,
+  pp_expect n h ts = Some (pp, comp) -> NoDup ts.
+Proof. exact pp_expect_NoDup. Qed.
+Print Assumptions C16_pp_expect_distinct.
+
+(** The same without [pp_expect]: [T] the target coordinates, [anc] exactly their proper ancestors.
+    The first result are the siblings of the non-root members of [T ++ anc] that are not members,
+    the second result is [anc]; both strictly ascending. *)
+Theorem C16_proof_positions_members : forall n h (T anc : list (N * N)),
+  h <= 63 -> n <= 2 ^ h ->
+  (forall c, In c (T ++ anc) -> in_forest n (fst c) (snd c) = true) ->
+  (forall c, In c (T ++ anc) -> is_root_c n c = false -> In (fst c + 1, snd c / 2) anc) ->
+  (forall c, In c anc -> exists c', In c' (T ++ anc) /\ is_root_c n c' = false /\
+                                   c = (fst c' + 1, snd c' / 2)) ->
+  (forall c, In c T -> ~ In c anc) ->
+  StronglySorted N.lt (map (fun c => Geometry.gpos h (fst c) (snd c)) T) ->
+  exists bs ds,
+    ProofPositions (map (fun c => Geometry.gpos h (fst c) (snd c)) T) n h =
+      (map (fun c => Geometry.gpos h (fst c) (snd c)) bs, map (fun c => Geometry.gpos h (fst c) (snd c)) ds) /\
+    StronglySorted N.lt (map (fun c => Geometry.gpos h (fst c) (snd c)) bs) /\
+    StronglySorted N.lt (map (fun c => Geometry.gpos h (fst c) (snd c)) ds) /\
+    (forall x, In x bs <-> exists c, In c (T ++ anc) /\ is_root_c n c = false /\
+                                     ~ In (fst c, N.lxor (snd c) 1) (T ++ anc) /\
+                                     x = (fst c, N.lxor (snd c) 1)) /\
+    (forall x, In x ds <-> In x anc).
+Proof. exact proof_positions_members. Qed.
+Print Assumptions C16_proof_positions_members.
